@@ -216,6 +216,13 @@ def assign_into(schema, t, dst, src):
     return src  # ref / uref leaves rebind
 
 
+def decl_default(f):
+    """Declared default of a struct field ([name, type, {"default"|"default_factory": v}?])."""
+    if len(f) > 2:
+        return f[2].get("default", f[2].get("default_factory"))
+    return None
+
+
 def default_node(schema, t, declared=None):
     ty = schema[t]
     k = ty["k"]
@@ -226,7 +233,7 @@ def default_node(schema, t, declared=None):
             return dt.type(v).tobytes()
         return dt.type(0).tobytes()
     if k == "struct":
-        return StructNode(t, {f[0]: default_node(schema, f[1], f[2].get("default") if len(f) > 2 else None) for f in ty["fields"]})
+        return StructNode(t, {f[0]: default_node(schema, f[1], decl_default(f)) for f in ty["fields"]})
     if k == "array":
         n = 1
         for d in ty["shape"]:
@@ -502,7 +509,7 @@ class Materialiser:
                     py[fl[0]] = p
                     f[fl[0]] = nd
                 else:
-                    f[fl[0]] = default_node(schema, fl[1], fl[2].get("default") if len(fl) > 2 else None)
+                    f[fl[0]] = default_node(schema, fl[1], decl_default(fl))
             return py, StructNode(t, f)
         if k == "array":
             return self.mat_array(t, ty, spec)
